@@ -135,3 +135,49 @@ REG.contract(
     props=["C18"],
     note="the asyncio/trio twin of _net_read satisfies the same contract ('await e' is read as 'e')",
 )
+
+
+# ----------------------------------------------------------------------------- C18: is the datagram from where the query went?
+import z3 as _z3  # noqa: E402
+from pyvc import sym as _S  # noqa: E402
+from pyvc.sym import SBool as _SBool, SBytes as _SBytes  # noqa: E402
+
+# the binary form of a textual address, whether the text is a valid address of the family, and whether it is multicast:
+# uninterpreted functions of the text (dns.inet is external to this property)
+_PTON = _z3.Function("inet_pton", _S.IntS, _S.SeqI, _S.SeqI)
+_PTON_OK = _z3.Function("inet_pton_valid", _S.IntS, _S.SeqI, _S.BoolS)
+_MCAST = _z3.Function("inet_is_multicast", _S.SeqI, _S.BoolS)
+
+
+def _seq(I, v):
+    from pyvc import models as M
+
+    return M.as_seq(I, v)
+
+
+REG.spec("pton", lambda I, af, s: _SBytes(_PTON(_S.to_z3(af), _seq(I, s)), "bytes"), lambda af, s: b"", "binary form of the textual address s in family af")
+REG.spec("pton_valid", lambda I, af, s: _SBool(_PTON_OK(_S.to_z3(af), _seq(I, s))), lambda af, s: True, "s is a valid textual address of family af")
+REG.spec("is_mcast", lambda I, s: _SBool(_MCAST(_seq(I, s))), lambda s: False, "s is a multicast address")
+REG.contract("dns.inet.inet_pton", params={"family": T.int, "text": T.str},
+             raises=[("dns.exception.SyntaxError", "not pton_valid(family, text)")], returns=T.bytes,
+             ensures=["result == pton(family, text)"], status="assumed", props=["C18"],
+             note="ASSUMED: inet_pton is a function of (family, text): the binary address, or SyntaxError for invalid text")
+REG.contract("dns.inet.is_multicast", params={"text": T.str}, raises=[("builtins.ValueError", "True", "may")], returns=T.bool,
+             ensures=["result == is_mcast(text)"], status="assumed", props=["C18"],
+             note="ASSUMED: is_multicast is a function of the address text")
+_ADDR = T.fixed(T.str, T.range(0, 65535))
+_SAME_BIN = ("(pton_valid(af, from_address[0]) and pton_valid(af, destination[0]) "
+             "and pton(af, from_address[0]) == pton(af, destination[0]))")
+_MATCH = f"(from_address[1] == destination[1] and ({_SAME_BIN} or is_mcast(destination[0])))"
+REG.contract(
+    "dns.query._matches_destination",
+    params={"af": T.int, "from_address": _ADDR, "destination": T.opt(_ADDR), "ignore_unexpected": T.bool},
+    raises=[("dns.query.UnexpectedSource", f"(destination is not None) and (not {_MATCH}) and (not ignore_unexpected)"),
+            ("builtins.ValueError", "True", "may")],
+    returns=T.bool,
+    ensures=[f"result == ((destination is None) or {_MATCH})"],
+    props=["C18"],
+    note="a datagram counts as coming from the queried server exactly when the port is the queried port and the address "
+         "is the queried address (compared in binary form) or the query went to a multicast address; otherwise it is "
+         "skipped (False) or UnexpectedSource is raised, as configured",
+)
